@@ -72,6 +72,8 @@ pub struct Report<A> {
     pub sample_histories: Vec<Vec<A>>,
     /// states on which `inspect` ran
     pub inspected: u64,
+    /// frontier states left unexpanded because the state cap was reached inside a level
+    pub unexpanded_due_to_cap: u64,
 }
 
 struct Node<S, A> {
@@ -104,6 +106,7 @@ pub fn explore<Sy: System>(sys: &Sy, max_depth: Option<usize>, max_states: Optio
         violations: vec![],
         sample_histories: vec![],
         inspected: 0,
+        unexpanded_due_to_cap: 0,
     };
     // observers on the initial states
     let init_findings: Vec<Vec<(String, String)>> = frontier.par_iter().map(|n| sys.inspect(&n.state)).collect();
@@ -131,7 +134,15 @@ pub fn explore<Sy: System>(sys: &Sy, max_depth: Option<usize>, max_states: Optio
         }
         // expand in parallel; keep per-node results in order
         type Out<S, K, A> = (Vec<(K, S, A, u64)>, Vec<(String, String, A, u64)>, u64, bool);
-        let results: Vec<Out<Sy::State, Sy::Key, Sy::Action>> = frontier
+        let mut next_frontier: Vec<Node<Sy::State, Sy::Action>> = Vec::new();
+        let mut state_cap_hit = false;
+        // the frontier is expanded in chunks so that only one chunk's successors are alive at a time
+        for chunk in frontier.chunks(4096) {
+        if state_cap_hit {
+            rep.unexpanded_due_to_cap += chunk.len() as u64;
+            continue;
+        }
+        let results: Vec<Out<Sy::State, Sy::Key, Sy::Action>> = chunk
             .par_iter()
             .map(|node| {
                 let mut nexts = Vec::new();
@@ -158,8 +169,7 @@ pub fn explore<Sy: System>(sys: &Sy, max_depth: Option<usize>, max_states: Optio
             })
             .collect();
 
-        let mut next_frontier: Vec<Node<Sy::State, Sy::Action>> = Vec::new();
-        for (node, (nexts, viols, trans, within)) in frontier.iter().zip(results.into_iter()) {
+        for (node, (nexts, viols, trans, within)) in chunk.iter().zip(results.into_iter()) {
             rep.transitions += trans;
             if !within {
                 rep.boundary_states += 1;
@@ -200,6 +210,12 @@ pub fn explore<Sy: System>(sys: &Sy, max_depth: Option<usize>, max_states: Optio
                     });
                 }
             }
+        }
+        if let Some(ms) = max_states {
+            if seen.len() as u64 >= ms {
+                state_cap_hit = true;
+            }
+        }
         }
         // state observers on every newly reached state
         let findings: Vec<Vec<(String, String)>> = next_frontier.par_iter().map(|n| sys.inspect(&n.state)).collect();
